@@ -4,7 +4,7 @@
    and input list.  "Matched" is what the match oracle (CPython re.match, recorded per run) says. *)
 From Coq Require Import ZArith List Bool.
 From Tdda Require Import Base.Sexp Base.Str Rexpy.Chars Rexpy.Pipeline Rexpy.PipelineProofs Rexpy.Sem
-     Rexpy.OracleCheck Rexpy.RefineProofs Rexpy.BatchProofs Rexpy.LoopProofs Rexpy.Regex Rexpy.RegexProofs.
+     Rexpy.OracleCheck Rexpy.RefineProofs Rexpy.BatchProofs Rexpy.LoopProofs Rexpy.Regex Rexpy.RegexFast Rexpy.RegexProofs.
 Import ListNotations.
 Open Scope Z_scope.
 
@@ -145,6 +145,13 @@ Theorem C03_portable_refuted :
     re_model_fullmatch py_chartab text s = Some false.
 Proof. exact portable_gap_refuted. Qed.
 Print Assumptions C03_portable_refuted.
+
+(* the extracted model evaluates expressions with a polynomial matcher (reachable positions; the backtracking
+   one is exponential on a?-?a?-?...): it decides exactly the same thing, for every expression and string *)
+Theorem C03_fast_matcher_equiv : forall ct text s,
+  re_fast_match ct text s = re_model_match ct text s /\ re_fast_fullmatch ct text s = re_model_fullmatch ct text s.
+Proof. intros ct text s. split; [apply re_fast_match_spec|apply re_fast_fullmatch_spec]. Qed.
+Print Assumptions C03_fast_matcher_equiv.
 
 (* the model's matcher decides its specification (a string is accepted iff it splits into runs each within its
    character set and count) *)
